@@ -1661,6 +1661,11 @@ def table_cell_fn(ctx: "Wtp", token: str) -> None:
                     # is just to make the type-checker happy without using
                     # an assert that attrs is definitely a str...
                     parse_attrs(node, attrs)
+                    return
+                if node.children:
+                    # What precedes the bar is not plain text (a link, an
+                    # element, ...): it is content, and so is the bar
+                    return text_fn(ctx, token)
                 return
             else:
                 return text_fn(ctx, token)
